@@ -200,5 +200,9 @@ typedef int32_t parsec_dependency_t;
 #define PARSEC_ENV_SEP  ':'
 #endif
 
+#if defined(PARSEC_VERIF)
+#include "parsec/verif_hooks.h"
+#endif  /* defined(PARSEC_VERIF) */
+
 #endif  /* PARSEC_CONFIG_BOTTOM_H_HAS_BEEN_INCLUDED */
 
